@@ -188,6 +188,11 @@ func (r *messageSetReader) readMessageV1(min int64, key readBytesFunc, val readB
 				_, err = r.decompressed.ReadFrom(codecReader)
 				remain = sz - (n - int(limitReader.N))
 				codecReader.Close()
+				if err == nil && limitReader.N != 0 {
+					// The codec reached the end of its input before the end of
+					// the announced payload: the message was truncated.
+					err = io.ErrUnexpectedEOF
+				}
 				return
 			}); err != nil {
 				return
@@ -287,6 +292,14 @@ func (r *messageSetReader) readMessageV2(_ int64, key readBytesFunc, val readByt
 			_, err = r.decompressed.ReadFrom(codecReader)
 			codecReader.Close()
 			if err != nil {
+				return
+			}
+			if limitReader.N != 0 {
+				// The codec reached the end of its input before the end of the
+				// announced payload: the batch was truncated, none of its
+				// records may be taken for the whole batch.
+				r.remain -= batchRemain - int(limitReader.N)
+				err = io.ErrUnexpectedEOF
 				return
 			}
 			r.remain -= batchRemain - int(limitReader.N)
